@@ -7,7 +7,7 @@ import shutil
 import tempfile
 from pathlib import Path
 
-from ..core.runner import HarnessError
+from ..core.runner import HarnessError, guarded
 from ..ref import formats as F
 from ..ref.ratelaws import same
 from . import c05, c07, c11
@@ -426,7 +426,7 @@ def run(ctx):
     ex = export_cases(ctx.tier)
     outcomes = {}
     with mp.get_context("fork").Pool(ctx.workers, maxtasksperchild=1) as pool:
-        for label, outcome, viols in pool.imap_unordered(run_export, ex):
+        for label, outcome, viols in pool.imap_unordered(guarded(run_export), ex):
             outcomes[label] = outcome
             ctx.absorb(viols)
     ctx.assumptions += [
